@@ -4,7 +4,8 @@
     The model is polymorphic in
       X  clamp parameters (ClampBase.params),
       P  points (rows of GridBase.points),
-      V  quality values, with [leb a b] meaning a <= b.
+      V  quality values; [leb q0 q1] is the rollback test of optimize_clamp (reporter.improvement <= 0,
+         i.e. q0 - q1 <= 0, i.e. q0 <= q1 for binary64 values).
     What the bookkeeping does not depend on is a parameter:
       c_fun   ClampBase.function            (params -> position)
       l_tr    LinkBase.transform            (leader position -> follower position)
